@@ -605,6 +605,7 @@ func c13Main(args []string) {
 	seed := fs.Int64("seed", 1, "seed")
 	histories := fs.Int("histories", 2, "number of seeded histories")
 	rsched := fs.String("rsched", "cut-during-monitoring,release-while-disconnected,release-with-executor-gone", "remote fault schedules (RemoteUnit.tla) to run")
+	rwTraces := fs.Int("rwtraces", 0, "write the rw_* traces of the first N schedules only (0 = all)")
 	stormRounds := fs.Int("storm", 12, "rounds of the status poll storm")
 	inprocBin := fs.String("inproc-bin", "", "receptor-inproc binary (histories with odd index use it and its in-process work type)")
 	nops := fs.Int("ops", 14, "operations per client")
@@ -698,7 +699,11 @@ func c13Main(args []string) {
 	normFile := filepath.Join(*base, "sf_trace.ndjson")
 	_ = sftrace.WriteNorm(normFile, norm)
 	rwFile := filepath.Join(*base, "rw_trace.ndjson")
-	res.Extra["rw_trace_file"], res.Extra["rw_trace_events"] = rwFile, writeRWTraces(rwFile, scheds)
+	forTLC := scheds
+	if *rwTraces > 0 && len(forTLC) > *rwTraces {
+		forTLC = forTLC[:*rwTraces]
+	}
+	res.Extra["rw_trace_file"], res.Extra["rw_trace_events"] = rwFile, writeRWTraces(rwFile, forTLC)
 	res.Extra["remote_schedules"] = scheds
 	unitFile := filepath.Join(*base, "unit_trace.ndjson")
 	if f, err := os.Create(unitFile); err == nil {
